@@ -1,0 +1,26 @@
+//go:build verif
+
+package protein
+
+// Contract of normalizeFreqs, the function added by the fix of defect 1 (frequency tables that do not sum to 1).
+// Comments only. Floats: exact-real model.
+
+//@ pure func c18b_ps(pi []float64, n int) real = (n > 0 ? pi[0] : 0.0) + (n > 1 ? pi[1] : 0.0) + (n > 2 ? pi[2] : 0.0) + (n > 3 ? pi[3] : 0.0) + (n > 4 ? pi[4] : 0.0) + (n > 5 ? pi[5] : 0.0) + (n > 6 ? pi[6] : 0.0) + (n > 7 ? pi[7] : 0.0) + (n > 8 ? pi[8] : 0.0) + (n > 9 ? pi[9] : 0.0) + (n > 10 ? pi[10] : 0.0) + (n > 11 ? pi[11] : 0.0) + (n > 12 ? pi[12] : 0.0) + (n > 13 ? pi[13] : 0.0) + (n > 14 ? pi[14] : 0.0) + (n > 15 ? pi[15] : 0.0) + (n > 16 ? pi[16] : 0.0) + (n > 17 ? pi[17] : 0.0) + (n > 18 ? pi[18] : 0.0) + (n > 19 ? pi[19] : 0.0)
+
+//@ func normalizeFreqs
+//@   props C18
+//@   requires c18b_freqs(pi)
+//@   ensures c18b_freqs(pi)
+//@   ensures c18b_sum20(pi) == 1.0
+//@   ensures forall k :: c18b_in20(k) ==> pi[k] == old(pi[k]) / old(c18b_sum20(pi))
+//@   modifies pi[*]
+// sum_k (x_k / s) == 1 when s == sum_k x_k > 0: decided on the ground instance by the real-arithmetic abstraction
+//@   hint old(pi[0]) / sum + old(pi[1]) / sum + old(pi[2]) / sum + old(pi[3]) / sum + old(pi[4]) / sum + old(pi[5]) / sum + old(pi[6]) / sum + old(pi[7]) / sum + old(pi[8]) / sum + old(pi[9]) / sum + old(pi[10]) / sum + old(pi[11]) / sum + old(pi[12]) / sum + old(pi[13]) / sum + old(pi[14]) / sum + old(pi[15]) / sum + old(pi[16]) / sum + old(pi[17]) / sum + old(pi[18]) / sum + old(pi[19]) / sum == 1.0
+//@   loop 1
+//@     modifies nothing
+//@     invariant sum == c18b_ps(pi, $i) && sum >= 0.0 && ($i >= 1 ==> sum > 0.0)
+//@   loop 2
+//@     modifies pi[*]
+//@     invariant sum == old(c18b_sum20(pi)) && sum > 0.0 && len(pi) == 20
+//@     invariant forall k :: 0 <= k && k < $i2 ==> pi[k] == old(pi[k]) / sum
+//@     invariant forall k :: $i2 <= k && k < 20 ==> pi[k] == old(pi[k])
